@@ -29,7 +29,8 @@ def sim_lazy_pool():
 
 
 VERIF = os.path.dirname(os.path.dirname(os.path.abspath(__file__)))
-BUILT_SO = os.path.join(VERIF, ".build", "_sedpack_rs.so")
+BUILD = os.environ.get("VERIF_BUILD", os.path.join(VERIF, ".build"))
+BUILT_SO = os.path.join(BUILD, "_sedpack_rs.so")
 _SEDPACK = None
 RUST_SOURCE = "none"
 
@@ -97,7 +98,7 @@ def sedpack_io():
         _SEDPACK = sedpack
     return _SEDPACK.io
 
-RUSTSIM = os.path.join(VERIF, ".build", "rustsim")
+RUSTSIM = os.path.join(BUILD, "rustsim")
 
 
 def build_rustsim() -> None:
